@@ -17,7 +17,10 @@ def one(args):
         env['MSA_OUT_SUFFIX'] = os.path.basename(t)
         r = subprocess.run([os.path.join(HERE, 'check'), pid, '--repo', t, '--no-evidence'], stdout=subprocess.PIPE, stderr=subprocess.STDOUT, text=True, cwd=HERE, env=env)
         lines = [l for l in r.stdout.split('\n') if l.startswith('  ')]
-        st = 'DETECTED' if r.returncode == 1 else ('MISSED' if r.returncode == 0 else 'BROKEN(exit %d)' % r.returncode)
+        if '/equivalents/' in patch:
+            st = 'SILENT-OK' if r.returncode == 0 else ('FALSE-ALARM' if r.returncode == 1 else 'BROKEN(exit %d)' % r.returncode)
+        else:
+            st = 'DETECTED' if r.returncode == 1 else ('MISSED' if r.returncode == 0 else 'BROKEN(exit %d)' % r.returncode)
         return (pid, patch, st, (lines[0].strip()[:200] if lines else r.stdout.strip().split('\n')[-1][:200]))
     finally:
         shutil.rmtree(t, ignore_errors=True)
@@ -27,11 +30,14 @@ def main():
     for pid in sys.argv[1:]:
         for patch in sorted(glob.glob(os.path.join(HERE, 'mutants', pid, '*.patch'))):
             jobs.append((pid, patch))
+        # behaviour-preserving edits: the check must stay silent on these
+        for patch in sorted(glob.glob(os.path.join(HERE, 'equivalents', pid, '*.patch'))):
+            jobs.append((pid, patch))
     bad = 0
     with ThreadPoolExecutor(max_workers=6) as ex:
         for (pid, patch, st, msg) in ex.map(one, jobs):
             print('%-5s %-40s %-10s %s' % (pid, os.path.basename(patch), st, msg))
-            if not st.startswith('DETECTED') and not st.startswith('SKIPPED'):
+            if not st.startswith('DETECTED') and not st.startswith('SKIPPED') and not st.startswith('SILENT-OK'):
                 bad += 1
     print('%d mutants, %d not detected' % (len(jobs), bad))
     return 1 if bad else 0
